@@ -749,7 +749,7 @@ func (fc *fnCtx) builtin(st *State, fr *frame, call *ssa.Call, b *ssa.Builtin, k
 			case *types.Map:
 				card := fc.region(st, "map.card", "(Array U Int)")
 				v := Val{T: fmt.Sprintf("(ite (= %s nil) 0 %s)", x.T, sel(card, x.T)), S: SInt, GT: call.Type()}
-				st.pc = append(st.pc, app("<=", "0", v.T))
+				st.pc = append(st.pc, app("<=", "0", v.T), app("<=", v.T, "MAXLEN"))
 				k(st, v)
 			case *types.Chan:
 				fc.chanLen(st, fr, call, x, k)
@@ -877,6 +877,7 @@ func (fc *fnCtx) rangeInit(st *State, ins *ssa.Range) {
 	fc.declareFun(st, "range_map", "(U) U")
 	st.pc = append(st.pc, eq(app("range_keys", r.T), keys), eq(app("range_map", r.T), x.T))
 	st.names["$enum"] = Val{T: keys, S: SSeq}
+	st.names["$iter"] = r
 	st.env[ins] = r
 }
 
